@@ -605,6 +605,27 @@ LGExpect(c) ==
   ELSE IF \E g \in G : GroupSize(c.grouping, g) = 1 /\ c.subs[g] = "list" THEN "skip"
   ELSE "accept"
 
+(* ====================================================================== nested ListGraders
+   The cross-option rules of a ListGrader also bind an INNER ListGrader that has no answers of its own and receives them from
+   the outer grader: the outer construction must then raise the configuration error.
+   case: [inner (ordered, subs, one, grouping of the inner grader), nin (entries of each answer list handed to the inner grader),
+          oform ("single": the inner grader is the only subgrader of the outer one, ngroups answers;
+                 "pair": subgraders = [inner, StringGrader()], answers = [inner list, string]), oordered, ngroups]
+   The outer grouping gives the inner grader as many inputs as it needs (its own grouping length, or nin). *)
+InnerInputs(c) == IF c.inner.grouping = <<>> THEN c.nin ELSE Len(c.inner.grouping)
+InnerCase(c) == [ordered |-> c.inner.ordered, subs |-> c.inner.subs, one |-> c.inner.one, grouping |-> c.inner.grouping,
+                 nans |-> c.nin, ntup |-> 0]
+OuterCase(c) ==
+  LET m == InnerInputs(c) IN
+  IF c.oform = "single"
+  THEN [ordered |-> c.oordered, subs |-> <<"list">>, one |-> TRUE,
+        grouping |-> [i \in 1..(m * c.ngroups) |-> ((i - 1) \div m) + 1], nans |-> c.ngroups, ntup |-> 0]
+  ELSE [ordered |-> c.oordered, subs |-> <<"list", "item">>, one |-> FALSE,
+        grouping |-> [i \in 1..(m + 1) |-> IF i <= m THEN 1 ELSE 2], nans |-> 2, ntup |-> 0]
+LNestExpect(c) ==
+  LET a == LGExpect(InnerCase(c))  b == LGExpect(OuterCase(c)) IN
+  IF a = "reject" \/ b = "reject" THEN "reject" ELSE IF a = "skip" \/ b = "skip" THEN "skip" ELSE "accept"
+
 (* ====================================================================== nested SingleListGraders
    chain: delimiters from the outermost grader inwards; all must differ *)
 NestedExpect(chain) == IF \A i, j \in 1..Len(chain) : i # j => chain[i] # chain[j] THEN "accept" ELSE "reject"
